@@ -28,12 +28,17 @@ DummyCtx g_ctx;
 std::vector<std::string> g_tr;
 
 struct Probe;
-std::map<uint64_t, Probe*> g_mods;   // every live module, by id
+std::map<uint64_t, Probe*> g_mods;   // every live module (destructor not begun), by id
+
+// one step of a hook script: `c<api>:<target>` | `a:<parent>:<child>:<req>` | `x`
+struct Act { char kind; char api; uint64_t a, b; bool req; };
+void run_script(std::vector<Act> sc);
 
 struct Probe : public Module {
     uint64_t id; bool named, cfg, init_ok, start_ok;
     int64_t parent = -1;               // our own shadow of the tree (Module has no accessor)
     std::vector<uint64_t> kids;
+    std::vector<Act> s_init, s_start, s_stop, s_cleanup;   // one-shot hook scripts
 
     Probe(uint64_t id_, bool named_, bool cfg_, bool i, bool s)
         : Module(named_ ? "m" + std::to_string(id_) : std::string(), g_ctx),
@@ -41,10 +46,25 @@ struct Probe : public Module {
     ~Probe() override { g_mods.erase(id); }
 
   protected:
-    bool onInit(const Json &) override { g_tr.push_back("i" + std::to_string(id) + (init_ok ? "+" : "-")); return init_ok; }
-    bool onStart() override { g_tr.push_back("s" + std::to_string(id) + (start_ok ? "+" : "-")); return start_ok; }
-    void onStop() override { g_tr.push_back("t" + std::to_string(id)); }
-    void onCleanup() override { g_tr.push_back("c" + std::to_string(id)); }
+    // the event is recorded when the hook returns (after its script); a throwing hook is recorded as failed / run
+    bool onInit(const Json &) override {
+        bool ok = init_ok;
+        try { run_script(std::move(s_init)); } catch (...) { g_tr.push_back("i" + std::to_string(id) + "-"); throw; }
+        g_tr.push_back("i" + std::to_string(id) + (ok ? "+" : "-")); return ok;
+    }
+    bool onStart() override {
+        bool ok = start_ok;
+        try { run_script(std::move(s_start)); } catch (...) { g_tr.push_back("s" + std::to_string(id) + "-"); throw; }
+        g_tr.push_back("s" + std::to_string(id) + (ok ? "+" : "-")); return ok;
+    }
+    void onStop() override {
+        try { run_script(std::move(s_stop)); } catch (...) { g_tr.push_back("t" + std::to_string(id)); throw; }
+        g_tr.push_back("t" + std::to_string(id));
+    }
+    void onCleanup() override {
+        try { run_script(std::move(s_cleanup)); } catch (...) { g_tr.push_back("c" + std::to_string(id)); throw; }
+        g_tr.push_back("c" + std::to_string(id));
+    }
 };
 
 void reset_all() {
@@ -61,7 +81,14 @@ void reset_all() {
 
 Probe *find(uint64_t id) { auto it = g_mods.find(id); return it == g_mods.end() ? nullptr : it->second; }
 
-uint64_t root_of(Probe *p) { while (p->parent >= 0) p = g_mods.at((uint64_t)p->parent); return p->id; }
+uint64_t root_of(Probe *p) {
+    for (int guard = 0; guard < 1000 && p->parent >= 0; ++guard) {
+        auto it = g_mods.find((uint64_t)p->parent);
+        if (it == g_mods.end()) break;               // parent's destructor has begun
+        p = it->second;
+    }
+    return p->id;
+}
 
 // the configuration object: a named module with cfg=1 gets its key (an object holding its
 // children's keys); an unnamed module passes its parent's object through
@@ -74,6 +101,50 @@ void fill_cfg(Probe *p, Json &js_parent) {
     } else {
         for (auto k : p->kids) fill_cfg(g_mods.at(k), js_parent);
     }
+}
+
+void fill_cfg(Probe *p, Json &js_parent);
+
+// parent->add(child): false = not a well-formed request (nothing called); ret = what add() returned
+bool do_add(uint64_t a, uint64_t b, bool req, bool &ret) {
+    Probe *p = find(a), *c = find(b);
+    if (!p || !c || (c->parent < 0 && root_of(p) == c->id)) return false;   // unknown/dying module or it would close a cycle
+    ret = p->add(c, req);
+    if (ret) { c->parent = (int64_t)p->id; p->kids.push_back(c->id); }
+    return true;
+}
+
+bool do_call(Probe *p, char api) {
+    switch (api) {
+        case 'i': { Json js = Json::object(); fill_cfg(p, js); return p->initialize(js); }
+        case 's': return p->start();
+        case 't': p->stop(); return true;
+        case 'c': p->cleanup(); return true;
+    }
+    return false;
+}
+
+void run_script(std::vector<Act> sc) {
+    for (auto &a : sc) {
+        if (a.kind == 'x') throw std::runtime_error("hook script");
+        if (a.kind == 'c') { if (Probe *t = find(a.a)) do_call(t, a.api); }
+        if (a.kind == 'a') { bool r; do_add(a.a, a.b, a.req, r); }
+    }
+}
+
+bool parse_act(const std::string &w, Act &out) {
+    if (w == "x") { out = Act{'x', 0, 0, 0, false}; return true; }
+    std::vector<std::string> f; size_t pos = 0;
+    for (;;) { size_t q = w.find(':', pos); f.push_back(w.substr(pos, q == std::string::npos ? q : q - pos)); if (q == std::string::npos) break; pos = q + 1; }
+    uint64_t a = 0, b = 0;
+    auto idok = [](const std::string &x, uint64_t &v) { return x.size() <= 4 && vh::to_u64(x, v) && v < 1000; };
+    if (f.size() == 2 && f[0].size() == 2 && f[0][0] == 'c' && std::string("istc").find(f[0][1]) != std::string::npos && idok(f[1], a)) {
+        out = Act{'c', f[0][1], a, 0, false}; return true;
+    }
+    if (f.size() == 4 && f[0] == "a" && idok(f[1], a) && idok(f[2], b) && (f[3] == "0" || f[3] == "1")) {
+        out = Act{'a', 0, a, b, f[3] == "1"}; return true;
+    }
+    return false;
 }
 
 std::string states() {
@@ -105,18 +176,21 @@ int main() {
         if (w[0] == "case") { reset_all(); std::cout << line << "\n"; continue; }
         if (w.size() == 1 && w[0] == "quiet") { std::cout << "P quiet\n"; continue; }   // (the model drops its B lines)
         g_tr.clear();
-        bool ok = false, ret = true;
+        bool ok = false, ret = true, thrown = false;
         uint64_t a = 0, b = 0; bool f1, f2, f3, f4;
         const std::string &op = w[0];
         if (op == "new" && w.size() == 6 && to_id(w[1], a) && to_bool(w[2], f1) && to_bool(w[3], f2) && to_bool(w[4], f3) && to_bool(w[5], f4)) {
             if (!find(a)) { new Probe(a, f1, f2, f3, f4); ok = true; }
         } else if (op == "add" && w.size() == 4 && to_id(w[1], a) && to_id(w[2], b) && to_bool(w[3], f1)) {
-            Probe *p = find(a), *c = find(b);
             // refused as ill-formed only when it would close a cycle (c is the root of p's own tree)
-            if (p && c && !(c->parent < 0 && root_of(p) == c->id)) {
+            ok = do_add(a, b, f1, ret);
+        } else if (op == "hook" && w.size() >= 3 && to_id(w[1], a) && w[2].size() == 1 && std::string("istc").find(w[2][0]) != std::string::npos) {
+            std::vector<Act> sc; bool good = true;
+            for (size_t k = 3; k < w.size(); ++k) { Act x; if (parse_act(w[k], x)) sc.push_back(x); else good = false; }
+            Probe *p = find(a);
+            if (good && p) {
                 ok = true;
-                ret = p->add(c, f1);
-                if (ret) { c->parent = (int64_t)p->id; p->kids.push_back(c->id); }
+                (w[2][0] == 'i' ? p->s_init : w[2][0] == 's' ? p->s_start : w[2][0] == 't' ? p->s_stop : p->s_cleanup) = sc;
             }
         } else if (op == "set" && w.size() == 5 && to_id(w[1], a) && to_bool(w[2], f1) && to_bool(w[3], f2) && to_bool(w[4], f3)) {
             if (Probe *p = find(a)) { p->cfg = f1; p->init_ok = f2; p->start_ok = f3; ok = true; }
@@ -124,16 +198,18 @@ int main() {
             Probe *p = find(a);
             if (p && p->parent < 0) {
                 ok = true;
-                if (op == "init") { Json js = Json::object(); fill_cfg(p, js); ret = p->initialize(js); }
-                else if (op == "start") ret = p->start();
-                else if (op == "stop") p->stop();
-                else if (op == "cleanup") p->cleanup();
-                else if (op == "destroy") delete p;
-                else ok = false;
+                try {
+                    if (op == "init") ret = do_call(p, 'i');
+                    else if (op == "start") ret = do_call(p, 's');
+                    else if (op == "stop") p->stop();
+                    else if (op == "cleanup") p->cleanup();
+                    else if (op == "destroy") delete p;
+                    else ok = false;
+                } catch (const std::exception &) { thrown = true; }   // a hook script threw: nobody in between catches
             }
         }
         if (!ok) { std::cout << "bad-op\n"; continue; }
-        std::cout << "P ret=" << (ret ? 1 : 0) << " tr=" << trace() << " st=" << states() << "\n";
+        std::cout << "P ret=" << (thrown ? "X" : ret ? "1" : "0") << " tr=" << trace() << " st=" << states() << "\n";
     }
     reset_all();
     return 0;
